@@ -21,14 +21,16 @@ LEVEL = "model_checking"
 
 def params(tier):
     if tier == "quick":
-        return [("OrderedMultiDict", ["a", "b"], [1, 2], 3),
+        # the argument forms of insert()/extend() are told apart by the SHAPE of what is passed, so the
+        # alphabets also hold a two-character key, a two-character string value and a two-element list value
+        return [("OrderedMultiDict", ["a", "kk"], [1, "vv"], 3),
                 ("PVLModule", ["a", "b"], [1, 2], 3),
-                ("PVLGroup", ["a", "b"], [1, 2], 2),
+                ("PVLGroup", ["kk", "b"], [1, [1, 2]], 2),
                 ("PVLObject", ["a", "b"], [1, 2], 2)]
     return [("OrderedMultiDict", ["a", "b", "c"], [1, 2], 4),
-            ("OrderedMultiDict", ["a", "b"], [1, 2], 5),
+            ("OrderedMultiDict", ["a", "kk"], [1, "vv"], 5),
             ("PVLModule", ["a", "b"], [1, 2], 4),
-            ("PVLGroup", ["a", "b"], [1, 2], 4),
+            ("PVLGroup", ["kk", "b"], [1, [1, 2]], 4),
             ("PVLObject", ["a", "b"], [1, 2], 4)]
 
 
@@ -194,8 +196,9 @@ def run(ctx):
     }
     return {"coverage": cov, "violations": total.violations, "violations_total": total.vio_total,
             "assumptions": [
-                "keys {a,b[,c]} and values {1,2} stand for all keys/values: the code never "
-                "inspects a key or value beyond ==",
+                "small key and value alphabets stand for all keys/values: the code compares them with == and, "
+                "in the argument helpers of insert()/extend(), looks at their shape (length-2 sequences) - "
+                "hence one two-character key, one two-character string value and one two-element list value",
                 "size bound on the item list; states at bound+1/+2 are checked but not expanded",
                 "getall(k) for a missing key may raise KeyError or return [] (the property does "
                 "not settle it); pop(k)/popall(k) may return the first value or all values",
